@@ -142,6 +142,25 @@ mod verif_c04 {
             }
         };
     }
+    //@H name=c04_percall_repeat props=C04,C20 bound="0 default tags + the same per-call tag added twice" fn=MetricBuilder::with_tag,with_tag_value :: a per-call tag added twice is carried twice, in place
+    #[kani::proof]
+    #[kani::unwind(5)]
+    fn c04_percall_repeat() {
+        let client = fixed_client(0);
+        let b = client.count_with_tags("the.key", 7i64).with_tag("ck", "cv").with_tag("ck", "cv").with_tag_value("bare").with_tag_value("bare");
+        match b.repr {
+            BuilderRepr::Success(ref f, _) => {
+                assert!(f.tags.len() == 4, "[C04] the call's own tags are all carried, in the order they were added, also when one is added more than once");
+                let ((k0, v0), (k1, v1), (k2, v2), (k3, v3)) = (f.tags[0], f.tags[1], f.tags[2], f.tags[3]);
+                assert!(k0.is_some() && k1.is_some() && same(v0, "cv") && same(v1, "cv") && k2.is_none() && k3.is_none() && same(v2, "bare") && same(v3, "bare"), "[C04] repeated per-call tags stay repeated, in place");
+            }
+            BuilderRepr::Error(..) => assert!(false, "[C03] adding tags never turns a valid metric into an error"),
+        }
+        kani::cover!(true, "end");
+        std::mem::forget(b);
+        std::mem::forget(client);
+    }
+
     //@H name=c04_percall_0 props=C04,C20 bound="0 default tags + 2 per-call tags" fn=MetricBuilder::with_tag,with_tag_value,with_container_id :: per-call tags in order on a client without defaults; per-call container id
     percall!(c04_percall_0, 0);
     //@H name=c04_percall_1 props=C04,C20 tier=thorough bound="1 default tag + 2 per-call tags" fn=MetricBuilder::with_tag,with_tag_value,with_container_id :: per-call tags after 1 default tag; per-call container id replaces the default
